@@ -119,6 +119,12 @@ def candidates(case):
                 if side == "t" and v.get("k") == "var":
                     continue
                 out.append(dict(case, **{side: v}))
+    # never let the shrinker drift INTO the input shape of an open finding (halving a Go leaf inside a UTF-8 sequence,
+    # splitting a surrogate pair under a JSON round trip): such a candidate still disagrees with S, but for another,
+    # known reason, and the original disagreement would be lost
+    inv0 = _has_invalid_go_leaf(case)
+    js0 = _op_over_surrogates(case, ("jsonrt",))
+    out = [c for c in out if (inv0 or not _has_invalid_go_leaf(c)) and (js0 or not _op_over_surrogates(c, ("jsonrt",)))]
     return out[:30]
 
 
